@@ -224,9 +224,16 @@ impl CommandReader {
             Some(stdout) => stdout,
         };
         drop(stdout);
-        if self.child.wait()?.success() {
+        let status = self.child.wait()?;
+        if status.success() {
             Ok(())
         } else {
+            // If we stopped reading before EOF and the child then died from
+            // (or, for a shell wrapper, reported) a broken pipe, then it was
+            // terminated by us and did not fail, whatever it wrote to stderr.
+            if !self.eof && died_from_broken_pipe(&status) {
+                return Ok(());
+            }
             let err = self.stderr.read_to_end();
             // In the specific case where we haven't consumed the full data
             // from the child process, then closing stdout above results in
@@ -305,6 +312,22 @@ impl StderrReader {
             }
         }
     }
+}
+
+/// Returns true if the given exit status says that the process was killed by
+/// SIGPIPE, or exited with the status shells use to report that (128 + 13).
+#[cfg(unix)]
+fn died_from_broken_pipe(status: &process::ExitStatus) -> bool {
+    use std::os::unix::process::ExitStatusExt;
+
+    const SIGPIPE: i32 = 13;
+    status.signal() == Some(SIGPIPE) || status.code() == Some(128 + SIGPIPE)
+}
+
+/// Broken pipes are not reported through the exit status on this platform.
+#[cfg(not(unix))]
+fn died_from_broken_pipe(_: &process::ExitStatus) -> bool {
+    false
 }
 
 fn stderr_to_command_error(stderr: &mut process::ChildStderr) -> CommandError {
